@@ -106,6 +106,23 @@ func applyGov(s *scn, st CStep) {
 			}
 			target = addr
 			tx = s.b.bvm(k, constant.RoleContractAddr, method+"Role", pb.String(addr), pb.String("reason"))
+		} else if st.Obj == "chain" && st.Act == "update" {
+			// the chain's admin updates the appchain: new name and/or a new admin list (possibly naming an address twice);
+			// a lower-priority proposal than freeze/logout on the same object
+			target = c.id
+			name := "name-" + c.id
+			if st.N%2 == 1 {
+				name = fmt.Sprintf("name-%s-%d", c.id, st.N)
+			}
+			admins := []string{c.admin.Addr.String()}
+			for j := 0; j < st.B%4; j++ {
+				admins = append(admins, keyFor(fmt.Sprintf("coadmin-%s-%d", c.id, (st.N+j)%5)).Addr.String())
+			}
+			if st.B%4 >= 2 && st.N%3 == 0 {
+				admins = append(admins, admins[1]) // the same address twice
+			}
+			tx = s.b.bvm(c.admin, constant.AppchainMgrContractAddr, "UpdateAppchain", pb.String(c.id), pb.String(name), pb.String("desc"), pb.Bytes(nil), pb.String(strings.Join(admins, ",")), pb.String("reason"))
+			k = c.admin
 		} else if st.Obj == "service" && st.Act == "block" {
 			// the service's owner blocks (or unblocks) a source: no proposal, takes effect at once
 			sv := c.services[st.B%len(c.services)]
